@@ -33,6 +33,27 @@ func prec(e Expr) int {
 	return 7
 }
 
+// spell prints a type; a string may be spelled "error" (the README: error is just a string type).
+func spell(t Type, err bool) string {
+	if err && t == TString {
+		return "error"
+	}
+	return t.String()
+}
+
+// noNil: the value of an untyped definition cannot be the bare nil (no type to infer); it is printed as "".
+func noNil(es []Expr) []Expr {
+	out := make([]Expr, len(es))
+	for i, e := range es {
+		if l, ok := e.(StrLit); ok && l.Nil {
+			l.Nil = false
+			e = l
+		}
+		out[i] = e
+	}
+	return out
+}
+
 func QuoteString(s StrLit) string {
 	if s.Nil && s.V == "" {
 		return "nil"
@@ -159,15 +180,16 @@ func SimpleStmtString(s Stmt) string {
 	switch x := s.(type) {
 	case VarDecl:
 		names := strings.Join(x.Names, ", ")
+		tyName := spell(x.Ty, x.Err)
 		switch x.Form {
 		case DeclVarType:
-			return "var " + names + " " + x.Ty.String()
+			return "var " + names + " " + tyName
 		case DeclVarTypeValue:
-			return "var " + names + " " + x.Ty.String() + " = " + exprList(x.Vals)
+			return "var " + names + " " + tyName + " = " + exprList(x.Vals)
 		case DeclVarValue:
-			return "var " + names + " = " + exprList(x.Vals)
+			return "var " + names + " = " + exprList(noNil(x.Vals))
 		default:
-			return names + " := " + exprList(x.Vals)
+			return names + " := " + exprList(noNil(x.Vals))
 		}
 	case Assign:
 		return strings.Join(x.Names, ", ") + " = " + exprList(x.Vals)
@@ -283,7 +305,7 @@ func (p *Printer) stmt(s Stmt) {
 	case FuncDef:
 		params := []string{}
 		for _, pa := range x.Params {
-			params = append(params, pa.Name+" "+pa.Ty.String())
+			params = append(params, pa.Name+" "+spell(pa.Ty, pa.Err))
 		}
 		head := "func " + x.Name
 		if !(x.NoParens && len(x.Params) == 0) {
@@ -292,11 +314,11 @@ func (p *Printer) stmt(s Stmt) {
 		switch len(x.Rets) {
 		case 0:
 		case 1:
-			head += " " + x.Rets[0].String()
+			head += " " + spell(x.Rets[0], len(x.RetErr) > 0 && x.RetErr[0])
 		default:
 			rs := []string{}
-			for _, r := range x.Rets {
-				rs = append(rs, r.String())
+			for i, r := range x.Rets {
+				rs = append(rs, spell(r, i < len(x.RetErr) && x.RetErr[i]))
 			}
 			head += " (" + strings.Join(rs, ", ") + ")"
 		}
